@@ -238,7 +238,9 @@ func NewCond(l Locker) *Cond { return &Cond{L: l} }
 
 // Wait atomically unlocks c.L and suspends the calling goroutine.
 func (c *Cond) Wait() {
-	r, g := simrt.EnterNoYield()
+	// taking the wait ticket is an operation on shared state (it races with a Broadcast/Signal
+	// issued without c.L held), so it is preceded by a scheduling point like every other one
+	r, g := simrt.Enter(simrt.KCond)
 	if r == nil {
 		// passthrough: poll a generation counter
 		c.mu.Lock()
